@@ -48,6 +48,12 @@ type Image struct {
 	Dir   string // directory holding the copy of the watched tree
 	Hash  string // content hash of the tree
 	Hits  int    // how many times this label had been reached when the image was taken
+	// PrevHash is the hash of the state the tree was in immediately before it
+	// reached this one ("" for the first image). The predecessor is an image of
+	// the same recorder (every state is imaged the first time it is seen).
+	PrevHash string
+	// Torn describes a derived image (TornVariants): which call was cut and how; "" for recorded images.
+	Torn string
 }
 
 // Recorder takes crash images of Root.
@@ -81,6 +87,7 @@ type Recorder struct {
 	capped   bool
 	copyErrs []string
 	fcache   map[string]fileEntry
+	nTorn    int
 }
 
 // fileEntry caches the digest of one file of the watched tree. It is reused at
@@ -233,8 +240,8 @@ func (r *Recorder) Snap(label string) *Image {
 		return nil
 	}
 	r.seen[h] = true
+	r.images = append(r.images, Image{N: n, Label: label, Dir: dst, Hash: h, Hits: r.labels[label], PrevHash: r.last})
 	r.last = h
-	r.images = append(r.images, Image{N: n, Label: label, Dir: dst, Hash: h, Hits: r.labels[label]})
 	return &r.images[n]
 }
 
@@ -431,4 +438,303 @@ func (r *Recorder) copyTree(src, dst string) error {
 		}
 		return nil
 	})
+}
+
+// ---------------------------------------------------------------------------
+// torn variants: the process-crash model applied INSIDE one call
+
+// TornOptions selects the kinds of derived images.
+type TornOptions struct {
+	// Overlay additionally derives, for a file rewritten with different content,
+	// the states a NON-truncating writer leaves (a prefix of the new content
+	// laid over the old bytes). The truncating-writer states (prefixes of the
+	// new content) are always derived.
+	Overlay bool
+	// Removals additionally derives partial states of a step that only removed
+	// several entries (os.RemoveAll of a directory): the first half of the
+	// removed files (name order) gone, and all removed files gone with the
+	// directories still present.
+	Removals bool
+}
+
+type tornEntry struct {
+	dir  bool
+	data []byte
+}
+
+func (r *Recorder) readTree(root string) (map[string]tornEntry, error) {
+	out := map[string]tornEntry{}
+	err := filepath.Walk(root, func(p string, fi os.FileInfo, err error) error {
+		if err != nil {
+			return err
+		}
+		rel, _ := filepath.Rel(root, p)
+		if rel == "." {
+			return nil
+		}
+		if r.Skip != nil && r.Skip(rel) {
+			if fi.IsDir() {
+				return filepath.SkipDir
+			}
+			return nil
+		}
+		switch {
+		case fi.IsDir():
+			out[rel] = tornEntry{dir: true}
+		case fi.Mode().IsRegular():
+			if r.HashNameOnly != nil && r.HashNameOnly(rel) {
+				out[rel] = tornEntry{} // presence only
+				return nil
+			}
+			b, err := os.ReadFile(p)
+			if err != nil {
+				return err
+			}
+			out[rel] = tornEntry{data: b}
+		}
+		return nil
+	})
+	return out, err
+}
+
+// TornVariants derives, for the step that led from next's predecessor state
+// (next.PrevHash) to next, the directory states a process killed INSIDE that
+// step can leave behind, as additional images (Label = next.Label, Torn set,
+// Dir under ImgDir/torn-*; they are not added to Images()). A write(2) of a
+// buffer can be cut anywhere, so when the step changed exactly ONE regular
+// file (created it, extended it, or rewrote it) and nothing else, the
+// variants are the predecessor state with that file holding
+//
+//   - created / rewritten: the first 0, len/2 and len-1 bytes of its new content
+//     (what a create-or-truncate writer leaves); with Overlay also the first
+//     len/2 and len-1 bytes of the new content laid over the old bytes;
+//   - extended: the old content plus the first half / all but the last byte of
+//     the appended bytes.
+//
+// A step that only moved a file or a directory (same content under a new
+// name; rename is atomic) has no variants. A step that changed several things
+// at once happened inside code that carries no crash points (SQLite's own
+// checkpoint, a library); it cannot be attributed to one call and yields no
+// variants: kind reports it as "multi:<changed entries>" so a harness can list
+// what was not decomposed. With Removals, a step that only removed several
+// entries yields the partial removals described in TornOptions.
+//
+// kind is "write:<rel>", "rename", "removal", "multi:...", "none" (nothing
+// attributable changed) or "first" (no predecessor).
+func (r *Recorder) TornVariants(next Image, opt TornOptions) (variants []Image, kind string, err error) {
+	if next.PrevHash == "" {
+		return nil, "first", nil
+	}
+	var prev *Image
+	r.mu.Lock()
+	for i := range r.images {
+		if r.images[i].Hash == next.PrevHash {
+			prev = &r.images[i]
+			break
+		}
+	}
+	nvar := r.nTorn
+	r.mu.Unlock()
+	if prev == nil {
+		return nil, "none", nil
+	}
+	a, err := r.readTree(prev.Dir)
+	if err != nil {
+		return nil, "", err
+	}
+	b, err := r.readTree(next.Dir)
+	if err != nil {
+		return nil, "", err
+	}
+	var added, removed, modified, addedDirs, removedDirs []string
+	for rel, eb := range b {
+		ea, ok := a[rel]
+		switch {
+		case !ok && eb.dir:
+			addedDirs = append(addedDirs, rel)
+		case !ok:
+			added = append(added, rel)
+		case ea.dir != eb.dir:
+			modified = append(modified, rel)
+		case !eb.dir && string(ea.data) != string(eb.data):
+			modified = append(modified, rel)
+		}
+	}
+	for rel, ea := range a {
+		if _, ok := b[rel]; !ok {
+			if ea.dir {
+				removedDirs = append(removedDirs, rel)
+			} else {
+				removed = append(removed, rel)
+			}
+		}
+	}
+	sort.Strings(added)
+	sort.Strings(removed)
+	sort.Strings(modified)
+	// pair off renames: an added file whose content equals a removed file's
+	usedRemoved := map[string]bool{}
+	var realAdded []string
+	renames := 0
+	for _, ad := range added {
+		matched := false
+		for _, rm := range removed {
+			if !usedRemoved[rm] && string(a[rm].data) == string(b[ad].data) && (filepath.Base(rm) == filepath.Base(ad) || len(added) == 1) {
+				usedRemoved[rm] = true
+				matched = true
+				renames++
+				break
+			}
+		}
+		if !matched {
+			realAdded = append(realAdded, ad)
+		}
+	}
+	var realRemoved []string
+	for _, rm := range removed {
+		if !usedRemoved[rm] {
+			realRemoved = append(realRemoved, rm)
+		}
+	}
+	mk := func(desc string, apply func(dir string) error) error {
+		nvar++
+		dst := filepath.Join(r.ImgDir, fmt.Sprintf("torn-%04d", nvar))
+		os.RemoveAll(dst)
+		if err := r.copyTree(prev.Dir, dst); err != nil {
+			return err
+		}
+		if err := apply(dst); err != nil {
+			return err
+		}
+		h, err := r.HashOf(dst)
+		if err != nil {
+			return err
+		}
+		variants = append(variants, Image{N: -nvar, Label: next.Label, Dir: dst, Hash: h, Hits: next.Hits, PrevHash: prev.Hash, Torn: desc})
+		return nil
+	}
+	defer func() {
+		r.mu.Lock()
+		r.nTorn = nvar
+		r.mu.Unlock()
+	}()
+	cuts := func(n int) []int {
+		set := map[int]bool{}
+		var out []int
+		for _, c := range []int{0, n / 2, n - 1} {
+			if c >= 0 && c < n && !set[c] {
+				set[c] = true
+				out = append(out, c)
+			}
+		}
+		return out
+	}
+	switch {
+	case len(realAdded)+len(modified) == 1 && len(realRemoved) == 0 && len(removedDirs) == 0 && renames == 0 && len(addedDirs) == 0:
+		rel := ""
+		var old, nw []byte
+		existed := false
+		if len(realAdded) == 1 {
+			rel, nw = realAdded[0], b[realAdded[0]].data
+		} else {
+			rel, old, nw, existed = modified[0], a[modified[0]].data, b[modified[0]].data, true
+			if a[rel].dir || b[rel].dir {
+				return nil, "multi:" + rel, nil
+			}
+		}
+		kind = "write:" + rel
+		write := func(content []byte) func(string) error {
+			return func(dir string) error { return os.WriteFile(filepath.Join(dir, rel), content, 0o644) }
+		}
+		if existed && len(nw) > len(old) && string(nw[:len(old)]) == string(old) {
+			// extended
+			d := len(nw) - len(old)
+			for _, c := range cuts(d) {
+				if c == 0 {
+					continue // the predecessor itself
+				}
+				if err := mk(fmt.Sprintf("%s extended by %d of %d bytes", rel, c, d), write(nw[:len(old)+c])); err != nil {
+					return variants, kind, err
+				}
+			}
+			return variants, kind, nil
+		}
+		what := "created"
+		if existed {
+			what = "rewritten (truncate+write)"
+		}
+		for _, c := range cuts(len(nw)) {
+			if err := mk(fmt.Sprintf("%s %s, %d of %d bytes written", rel, what, c, len(nw)), write(nw[:c])); err != nil {
+				return variants, kind, err
+			}
+		}
+		if existed && opt.Overlay {
+			for _, c := range cuts(len(nw)) {
+				if c == 0 {
+					continue
+				}
+				ov := append([]byte{}, nw[:c]...)
+				if len(old) > c {
+					ov = append(ov, old[c:]...)
+				}
+				if err := mk(fmt.Sprintf("%s rewritten in place, %d of %d new bytes over the old %d", rel, c, len(nw), len(old)), write(ov)); err != nil {
+					return variants, kind, err
+				}
+			}
+		}
+		return variants, kind, nil
+
+	case len(realAdded) == 0 && len(modified) == 0 && len(addedDirs) <= 1 && renames > 0 && len(realRemoved) == 0:
+		return nil, "rename", nil
+
+	case len(realAdded) == 0 && len(modified) == 0 && len(addedDirs) == 0 && renames == 0 && len(realRemoved)+len(removedDirs) > 0:
+		kind = "removal"
+		if !opt.Removals || len(realRemoved) < 1 || len(realRemoved)+len(removedDirs) < 2 {
+			return nil, kind, nil
+		}
+		half := realRemoved[:(len(realRemoved)+1)/2]
+		if len(half) < len(realRemoved) {
+			if err := mk(fmt.Sprintf("removal cut after %d of %d files", len(half), len(realRemoved)), func(dir string) error {
+				for _, f := range half {
+					if err := os.Remove(filepath.Join(dir, f)); err != nil {
+						return err
+					}
+				}
+				return nil
+			}); err != nil {
+				return variants, kind, err
+			}
+		}
+		if len(removedDirs) > 0 {
+			if err := mk(fmt.Sprintf("removal cut after all %d files, %d directories still present", len(realRemoved), len(removedDirs)), func(dir string) error {
+				for _, f := range realRemoved {
+					if err := os.Remove(filepath.Join(dir, f)); err != nil {
+						return err
+					}
+				}
+				return nil
+			}); err != nil {
+				return variants, kind, err
+			}
+		}
+		return variants, kind, nil
+
+	case len(realAdded)+len(modified)+len(realRemoved)+len(removedDirs)+len(addedDirs)+renames == 0:
+		return nil, "none", nil
+	}
+	var all []string
+	for _, x := range realAdded {
+		all = append(all, "+"+x)
+	}
+	for _, x := range modified {
+		all = append(all, "~"+x)
+	}
+	for _, x := range realRemoved {
+		all = append(all, "-"+x)
+	}
+	if renames > 0 {
+		all = append(all, fmt.Sprintf("%d renamed", renames))
+	}
+	sort.Strings(all)
+	return nil, "multi:" + fmt.Sprint(all), nil
 }
